@@ -125,7 +125,7 @@ fn c04() -> Outcome {
     for _ in 0..budget() {
         n += 1;
         let f = rand_function(&mut r, &IDS, 3, false);
-        let k = 1 + r.below(3); let mut map: HashMap<u64, Function> = HashMap::new();
+        let k = 1 + r.below(4); let mut map: HashMap<u64, Function> = HashMap::new();   // 1..4 entries
         for _ in 0..k { let id = r.pick(&IDS); map.insert(id, rand_function(&mut r, &IDS, 2, false)); }
         if n == 3 { note(|| format!("random: substitute {map:?} into {f:?}")); }
         trace(|| format!("Function::substitute f={f:?} with {map:?}"));
